@@ -507,7 +507,7 @@ def _contrib_run(ctx, cxx):
     exe = vlib.build_cpp([os.path.join(vlib.VERIF, "harness", "c11_contrib.cpp")], "c11_contrib_" + cxx, flags=["-O1"], compiler=cxx)
     rc, out = vlib.sh([exe, "3" if ctx.tier == "quick" else "4"], timeout=1800)
     rows = [l.split() for l in out.split("\n") if l.startswith("G ")]
-    if rc != 0 or len(rows) < 30:
+    if rc != 0 or len(rows) < 36:
         ctx.diff("c11_contrib harness (%s) failed to run to completion" % cxx, out[-1500:])
         return
     cases = 0
